@@ -113,6 +113,22 @@ fn main() {
                 if !rr.missing.iter().any(|y| msg.contains(&y.to_string())) {
                     push("C04", "missing_exemption_message", format!("error does not name the unconfigured year {:?}: {msg}", rr.missing));
                 }
+                // C07: the report of a CONFIGURED year is still that year's slice of the full history -- another
+                // year lying outside the exemption table is no obstacle to it
+                for ey in rr.years.iter().filter(|e| !rr.missing.contains(&e.year)) {
+                    cnt.inc("executions");
+                    cnt.inc("slices_next_to_unconfigured_year");
+                    match run(&txs, Some(i32::from(ey.year)), &cfg) {
+                        Err(p) => push("C15", "panic", format!("calculate panicked: {p}")),
+                        Ok(Err(m2)) => push("C07", "slice_refused", format!("--year {} refused because another year of the history ({:?}) has no configured exemption: {m2}", ey.year, rr.missing)),
+                        Ok(Ok(r1)) => {
+                            let y = r1.tax_years.first();
+                            let ok = r1.tax_years.len() == 1 && y.map(|y| y.period.start_year() == ey.year && y.disposals.len() == ey.count
+                                && ey.gain.close_to(y.total_gain, tol_proceeds()) && ey.loss.close_to(y.total_loss, tol_proceeds()) && ey.net.close_to(y.net_gain, tol_proceeds())).unwrap_or(false);
+                            if !ok { push("C07", "slice_differs", format!("--year {}: {:?}; expected {} disposals, gain {} loss {}", ey.year, y, ey.count, ey.gain.show(), ey.loss.show())); }
+                        }
+                    }
+                }
             }
             (Ok(Ok(rep)), "missing_exemption") => {
                 let shown: Vec<String> = rep.tax_years.iter().map(|y| format!("{}: exempt {}", y.period.start_year(), y.exempt_amount)).collect();
